@@ -718,8 +718,11 @@ class rrule(rrulebase):
 
         output = []
         h, m, s = [None] * 3
+        # strftime('%Y') does not zero-pad years below 1000 on every platform
+        dtfmt = '{:04d}{:02d}{:02d}T{:02d}{:02d}{:02d}'
         if self._dtstart:
-            output.append(self._dtstart.strftime('DTSTART:%Y%m%dT%H%M%S'))
+            output.append('DTSTART:' +
+                          dtfmt.format(*self._dtstart.timetuple()[:6]))
             h, m, s = self._dtstart.timetuple()[3:6]
 
         parts = ['FREQ=' + FREQNAMES[self._freq]]
@@ -733,7 +736,7 @@ class rrule(rrulebase):
             parts.append('COUNT=' + str(self._count))
 
         if self._until:
-            parts.append(self._until.strftime('UNTIL=%Y%m%dT%H%M%S'))
+            parts.append('UNTIL=' + dtfmt.format(*self._until.timetuple()[:6]))
 
         if self._original_rule.get('byweekday') is not None:
             # The str() method on weekday objects doesn't generate
